@@ -55,6 +55,10 @@ var profiles = map[string]Profile{
 		AllowLookup: []bool{true}, Expiry: []int64{0, 30000}, CacheKinds: []string{"empty", "partial", "undeclared", "garbage", "readerr", "complete"},
 		Deadlines: []int64{0}, LookupDl: []int64{0}, AdvanceMs: []int64{1000, 31000}, DeadRestartPct: 60,
 		Weights: map[string]int{"respond": 34, "fail": 5, "svc": 14, "advance": 8, "refresh": 10, "tick": 6, "read": 6, "handle": 6, "lookup": 8, "close": 3, "restart": 10, "cachefault": 3}, Steps: 60},
+	"expiryauto": {Name: "expiryauto", Names: allNames, Callers: allCallers, Declared: [][]string{{"a"}, {"a", "x"}}, Auto: true,
+		AllowLookup: []bool{true}, Expiry: []int64{30000, 30000, 0}, CacheKinds: []string{"undeclared", "zerostamp", "empty"},
+		Deadlines: []int64{0}, LookupDl: []int64{0}, AdvanceMs: []int64{10000, 30000, 31000, 1000}, ParkPct: 30,
+		Weights: map[string]int{"respond": 35, "fail": 4, "svc": 8, "advance": 18, "refresh": 8, "tick": 10, "read": 10, "handle": 6, "lookup": 8, "unpark": 6, "restart": 8, "close": 4}, Steps: 60},
 	"expiry": {Name: "expiry", Names: allNames, Callers: allCallers, Declared: [][]string{{"a"}, {"a"}, {"a", "x"}, {"b"}},
 		AllowLookup: []bool{true}, Expiry: []int64{0, 30000, 30000}, CacheKinds: []string{"undeclared", "zerostamp", "empty"},
 		Deadlines: []int64{0}, LookupDl: []int64{0}, AdvanceMs: []int64{10000, 30000, 31000, 1000},
